@@ -476,6 +476,11 @@ func c12Pool(rng *plan.Rand, size int) []plan.Op {
 		setM(&op2, MakeSentence(rng, "badsum", ent, l))
 		op3 := plan.Op{K: "check", Lang: l}
 		setM(&op3, MakeSentence(rng, "nfc", ent, l))
+		// the same valid phrase under another (and an unsupported) Language value
+		op4, op5 := op, op
+		op4.K, op4.Lang = "check", (l+1+rng.Intn(ref.NumLang-1))%ref.NumLang
+		op5.K, op5.Lang = "check", UnsupportedLangs[rng.Intn(len(UnsupportedLangs))]
+		pool = append(pool, op4, op5)
 		pool = append(pool, op, op2, op3, plan.Op{K: "ent", Lang: l, Ent: hex.EncodeToString(rng.Bytes(16))})
 		need := 16
 		pool = append(pool, plan.Op{K: "new", Lang: l, N: 12, Dev: &plan.Dev{Seed: rng.Uint64(), Script: []plan.DevStep{{D: 5}, {D: 3}, {D: need - 8}}}})
